@@ -82,27 +82,37 @@ Theorem C07_wf_check_sound : forall g, wf_check g = true -> wf g.
 Proof. exact wf_check_sound. Qed.
 Print Assumptions C07_wf_check_sound.
 
-(* PARTIAL: the task graph built by make_hydro_tasks/set_dependencies/reset_hydro_tasks is well formed for every layout
-   with 1..4 subgrids per axis and every periodicity in which no periodic axis has exactly one subgrid - proved by
-   evaluating wf_check in the kernel for these 512 graphs; not proved for larger layouts (there wf_check is evaluated
-   on the real dumped table on every run of the check). *)
+(* PARTIAL (bounded): the task graph built by make_hydro_tasks/set_dependencies/reset_hydro_tasks of the repaired code
+   ([make_graph true]) is well formed for EVERY layout with 1..4 subgrids per axis and EVERY periodicity, including
+   a periodic axis with one subgrid - proved by evaluating wf_check in the kernel for these 512 graphs; not proved for
+   larger layouts (there wf_check is evaluated on the real dumped table on every run of the check). *)
 Theorem C07_make_graph_wf_partial : forall Y,
-  1 <= lnx Y <= 4 -> 1 <= lny Y <= 4 -> 1 <= lnz Y <= 4 ->
-  (lpx Y = true -> lnx Y <> 1) -> (lpy Y = true -> lny Y <> 1) -> (lpz Y = true -> lnz Y <> 1) ->
-  wf (make_graph Y).
+  1 <= lnx Y <= 4 -> 1 <= lny Y <= 4 -> 1 <= lnz Y <= 4 -> wf (make_graph true Y).
 Proof. exact make_graph_wf_partial. Qed.
 Print Assumptions C07_make_graph_wf_partial.
 
-(* REFUTED for all layouts: with one subgrid on a periodic axis the graph is not well formed (defect D2) ... *)
-Theorem C07_self_neighbour_refuted : exists Y, 1 <= lnx Y /\ 1 <= lny Y /\ 1 <= lnz Y /\ ~ wf (make_graph Y).
+(* A pair task of a subgrid with itself (one subgrid on a periodic axis) has exactly one lock, the lock of the only
+   subgrid it touches, which every other task of that subgrid also takes (all layouts up to 3 x 3 x 3): it is covered
+   by C07_mutual_exclusion.  The former D2 witness: task 1 of 1 x 2 x 2 periodic in x. *)
+Theorem C07_self_pair_single_lock :
+  forallb (fun Y => self_pairs_ok (make_graph true Y)) (layouts_upto 3) = true
+  /\ (let t := tk (make_graph true (mkLayout 1 2 2 true false false)) 1 in
+      kind t = GN /\ sub t = 0 /\ other t = Some 0 /\ dep0 t = Some 0 /\ dep1 t = None /\ locks t = [0] /\ touches t = [0; 0]
+      /\ locks (tk (make_graph true (mkLayout 1 2 2 true false false)) 0) = [0]).
+Proof. split. exact self_pairs_single_lock. exact D2_witness_fixed_task. Qed.
+Print Assumptions C07_self_pair_single_lock.
+
+(* REFUTED for the pinned commit ([make_graph false]: set_extra_dependency stored the pointer unconditionally): with one
+   subgrid on a periodic axis the graph is not well formed (defect D2, fixed in the repository) ... *)
+Theorem C07_self_neighbour_refuted : exists Y, 1 <= lnx Y /\ 1 <= lny Y /\ 1 <= lnz Y /\ ~ wf (make_graph false Y).
 Proof. exact self_neighbour_refuted. Qed.
 Print Assumptions C07_self_neighbour_refuted.
 
 (* ... and for 1 x 2 x 2 periodic in x the pair task 1 (x-neighbour gradient sweep of subgrid 0: both locks are
    the lock of subgrid 0) is never started, for any number of threads and any schedule: the step cannot complete. *)
 Theorem C07_self_neighbour_never_completes : forall n sched,
-  ~ In (EStart 1) (log (exec (make_graph (mkLayout 1 2 2 true false false))
-                             (init (make_graph (mkLayout 1 2 2 true false false)) n) sched)).
+  ~ In (EStart 1) (log (exec (make_graph false (mkLayout 1 2 2 true false false))
+                             (init (make_graph false (mkLayout 1 2 2 true false false)) n) sched)).
 Proof. exact self_neighbour_never_completes. Qed.
 Print Assumptions C07_self_neighbour_never_completes.
 
@@ -110,7 +120,7 @@ Print Assumptions C07_self_neighbour_never_completes.
    is queued (add_task) before it is counted (pre_increment).  1 x 1 x 1, two threads: thread 1 exits with
    number_of_tasks = 0 while the flux tasks 10..15 and the updates 16, 17 have not run; thread 0 finishes alone. *)
 Theorem C07_early_exit_possible :
-  let g := make_graph (mkLayout 1 1 1 false false false) in
+  let g := make_graph true (mkLayout 1 1 1 false false false) in
   let s := exec g (init g 2) early_sched in
   wf g /\ nth 1 (pcs s) Exited = Exited /\ nth 0 (pcs s) Exited = Inc 8 0 /\ ntasks s = 0
   /\ stoppedb s 9 = true /\ stoppedb s 10 = false /\ stoppedb s 17 = false.
@@ -118,7 +128,7 @@ Proof. exact early_exit_possible. Qed.
 Print Assumptions C07_early_exit_possible.
 
 Theorem C07_early_exit_still_completes :
-  let g := make_graph (mkLayout 1 1 1 false false false) in
+  let g := make_graph true (mkLayout 1 1 1 false false false) in
   let s := exec g (init g 2) (early_sched ++ finish_sched) in
   pcs s = [Exited; Exited] /\ forallb (stoppedb s) (seq 0 (length g)) = true /\ length (log s) = 36.
 Proof. exact early_exit_still_completes. Qed.
